@@ -3,6 +3,7 @@ package processorqueue
 import (
 	clock "lunar/toolkit-core/clock"
 	context_manager "lunar/toolkit-core/context-manager"
+	"lunar/toolkit-core/verifhook"
 	"sync"
 	"sync/atomic"
 	"time"
@@ -142,6 +143,7 @@ func (watcher *RequestWatcher) notifyExpiredRequests() {
 		req, found := watcher.GetRequest(requestID)
 		if found && req.StartProcessing() {
 			watcher.logger.Trace().Msgf("Request %s is expired", requestID)
+			verifhook.Point("q.before_signal", "id", requestID, "result", "timeout")
 			req.SetProcessedTimeout()
 		}
 	}
